@@ -775,6 +775,7 @@ package flags
 //@   assigns option.isSet, option.preventDefault, option.clearReferenceBeforeSet
 
 //@ func (option *Option) setDefault(value *string) (err error)
+//@   traced
 //@   props C05 C04
 //@   requires option != nil
 //@   ensures[C05] old(option.preventDefault) ==> err == nil && ncalls(Option.Set) == old(ncalls(Option.Set)) && option.isSet == old(option.isSet) && option.isSetDefault == old(option.isSetDefault) && option.preventDefault && option.clearReferenceBeforeSet == old(option.clearReferenceBeforeSet)
@@ -1059,10 +1060,13 @@ package flags
 //@ func (i *IniParser) parse(ini *ini) (err error)
 //@   props C05 C13 C14 C04 C12 C15
 //@   requires i != nil && i.parser != nil && ini != nil
+//@   let sd0 := ncalls(Option.setDefault)
 //@   loop 1 invariant forall(k, 0, idx_1, iterelem(Command.eachOption, i.parser.Command, k, 2).clearReferenceBeforeSet)
 //@   loop 2 invariant !isnil(quotesLookup) && !isnil(iniDefaulted) && p == i.parser
 //@   loop 2 invariant[C05] idx_2 == 0 ==> allClearRef(i.parser)
 //@   loop 3 invariant !isnil(quotesLookup) && !isnil(iniDefaulted) && p == i.parser
+//@   loop 2 invariant[C13] forall(k, sd0, ncalls(Option.setDefault), iniDefaulted[callarg(Option.setDefault, k, 0)])
+//@   loop 3 invariant[C13] forall(k, sd0, ncalls(Option.setDefault), iniDefaulted[callarg(Option.setDefault, k, 0)])
 //@   loop 4 invariant !isnil(quotesLookup) && !isnil(iniDefaulted) && p == i.parser
 //@   loop 5 invariant true
 //@   at call Option.Set #1: opt != nil && (pval == nil) == (!opt.canArgument() && len(inival.Value) == 0) && (pval != nil && opt.value.Type().Kind() != reflect.Map ==> *pval == inival.Value)
@@ -1528,6 +1532,11 @@ package flags
 //@   traced
 //@   let k0 := ncalls(Completer.Complete)
 //@   loop 1 invariant len(ret) == len(loopentry(ret)) && forall(j, 0, idx_1, ret[j].Item == prefix + loopentry(ret)[j].Item && ret[j].Description == loopentry(ret)[j].Description) && forall(j, idx_1, len(ret), ret[j] == loopentry(ret)[j])
+//@   let scalar := value.Kind() != reflect.Slice
+//@   let tv := value
+//@   ensures[C18] scalar && is(tv.Interface(), Completer) ==> ncalls(Completer.Complete) == k0 + 1 && callarg(Completer.Complete, k0, 0) == as(tv.Interface(), Completer)
+//@   ensures[C18] scalar && !is(tv.Interface(), Completer) && tv.CanAddr() && is(tv.Addr().Interface(), Completer) ==> ncalls(Completer.Complete) == k0 + 1 && callarg(Completer.Complete, k0, 0) == as(tv.Addr().Interface(), Completer)
+//@   ensures[C18] scalar && !is(tv.Interface(), Completer) && !(tv.CanAddr() && is(tv.Addr().Interface(), Completer)) ==> ncalls(Completer.Complete) == k0
 //@   ensures[C18] ncalls(Completer.Complete) <= k0 + 1
 //@   ensures[C18] ncalls(Completer.Complete) == k0 ==> len(r) == 0
 //@   ensures[C18] ncalls(Completer.Complete) == k0 + 1 ==> callarg(Completer.Complete, k0, 1) == match && len(r) == len(callres(Completer.Complete, k0, 0)) && forall(j, 0, len(r), r[j].Item == prefix + callres(Completer.Complete, k0, 0)[j].Item && r[j].Description == callres(Completer.Complete, k0, 0)[j].Description)
@@ -1664,3 +1673,25 @@ package flags
 // (The round trip of a numeric option is the composition of two contracts and
 // this fact: convertToString renders FormatInt(v, base(tag)), convert stores
 // ParseInt(text, base(tag), width); both read the base from the same tag.)
+
+// The orderings handed to sort.Sort (C15): the assumed contracts of
+// sort.Sort.commandList / sort.Sort.completions say "sorted by Name / Item";
+// that is what these methods must implement.
+//@ func (c commandList) Less(i int, j int) (r bool)
+//@   props C15 C20 C04
+//@   requires 0 <= i && i < len(c) && 0 <= j && j < len(c)
+//@   ensures[C15] r == (c[i].Name < c[j].Name)
+//@   assigns nothing
+//@ func (c commandList) Len() (r int)
+//@   props C15 C04
+//@   ensures[C15] r == len(c)
+//@   assigns nothing
+//@ func (c completions) Less(i int, j int) (r bool)
+//@   props C15 C18 C04
+//@   requires 0 <= i && i < len(c) && 0 <= j && j < len(c)
+//@   ensures[C15] r == (c[i].Item < c[j].Item)
+//@   assigns nothing
+//@ func (c completions) Len() (r int)
+//@   props C15 C04
+//@   ensures[C15] r == len(c)
+//@   assigns nothing
